@@ -177,6 +177,9 @@ def oracle(case):
     except cbuild.DriverCrash as c:
         raise Violation("c06:memory-or-panic:%s:%s" % (v, c.signature()), c.stderr[-700:])
     out = out[len(dlcis):]
+    if any(l.startswith("RUNAWAY") for l in out):
+        raise Violation("c06:tx:transmitter-never-idle", "more than 16 MiB pulled from the transmitter for a history that queued %d octets" % sum(
+            len(o[2]) for o in ops if o[0] == "S"))
     if any(l.startswith("HARNESS-OVERFLOW") for l in out):
         raise HarnessError("driver output buffer too small for this history")
     # ---- walk the transcript
